@@ -35,6 +35,7 @@ EvInit ==
   /\ drift' = drift \cup
        (IF Line.callers = Cardinality(Callers) /\ Line.mutsPer = MutsPer
            /\ {10 * Line.nest[i][1] + Line.nest[i][2] : i \in 1..Len(Line.nest)} = NestCodes
+           /\ {10 * Line.prep[i][1] + Line.prep[i][2] : i \in 1..Len(Line.prep)} = PrepCodes
         THEN {} ELSE {<<l, "scenario">>})
   /\ UNCHANGED viol
 
@@ -50,8 +51,12 @@ MutexLogged(c, p) ==
   (p \in {"pq.casWon", "pq.popped", "pq.loopExit"}) =>
      \A d \in Callers \ {c} : pc[d] \notin {"pq.casWon", "pq.popped", "pq.loopExit"}
 
+EvEvalIn ==   \* harness gate inside an eval function: not a machine hook point
+  /\ Line.ev = "gate" /\ Line.point = "eval.in"
+  /\ UNCHANGED <<vars, viol, drift, nexec, hopen>>
+
 EvGate ==
-  /\ Line.ev = "gate" /\ Line.point # "stuck"
+  /\ Line.ev = "gate" /\ Line.point \notin {"stuck", "eval.in"}
   /\ LET x == Line
          c == x.role
          M == Step(c) /\ Matches(c, x)
@@ -66,7 +71,10 @@ EvGate ==
            /\ pc' = [pc EXCEPT ![c] = x.point]
            /\ qlen' = x.qlen /\ qtick' = x.qtick /\ processing' = x.proc
            /\ owner' = IF x.proc THEN owner ELSE 0
-           /\ UNCHANGED <<k, queue, pending, popped, ticks, results>>
+           \* keep the queue as long as the logged length (unknown entries are placeholders)
+           /\ queue' = IF x.qlen <= Len(queue) THEN SubSeq(queue, 1, x.qlen)
+                        ELSE queue \o [i \in 1..(x.qlen - Len(queue)) |-> [id |-> <<0, 0>>, tick |-> 0]]
+           /\ UNCHANGED <<k, pending, popped, ticks, results>>
            /\ drift' = drift \cup {<<l, "gate:" \o x.point>>}
      /\ viol' = viol \cup v
   /\ UNCHANGED <<nexec, hopen>>
@@ -111,7 +119,11 @@ EvEnd ==
            THEN {} ELSE {<<l, "tick-order">>}}
          d == IF x.free THEN {} ELSE UNION {   \* free-running executions log no gates
            IF x.stuck THEN {<<l, "stuck-execution">>} ELSE {},
-           IF Len(x.popped) = Len(popped) THEN {} ELSE {<<l, "popped">>},
+           \* the tracer sees transitions only: an Eval (odd k of a prepended op) has none
+           IF Len(x.popped) = Cardinality({i \in 1..Len(popped) :
+                                  ~(Len(popped[i]) = 2 /\ IsPrep(popped[i][1], popped[i][2])
+                                    /\ popped[i][2] % 2 = 1)})
+           THEN {} ELSE {<<l, "popped">>},
            IF x.stuck \/ \A c \in Callers : pc[c] \in {"end", "return"}
            THEN {} ELSE {<<l, "not-all-ended">>}}
      IN /\ viol' = viol \cup v
@@ -129,7 +141,7 @@ Done ==
 (* event of that caller or at the end                                         *)
 TraceNext ==
   \/ /\ l <= Len(Trace)
-     /\ (EvInit \/ EvGate \/ EvStuck \/ EvHandler \/ EvEnd)
+     /\ (EvInit \/ EvGate \/ EvEvalIn \/ EvStuck \/ EvHandler \/ EvEnd)
      /\ l' = l + 1
   \/ (Done /\ l' = l + 1)
 
